@@ -8,6 +8,7 @@ import (
 	"os"
 
 	"verifharness/internal/c01"
+	"verifharness/internal/c04"
 	"verifharness/internal/c05"
 	"verifharness/internal/c17"
 	"verifharness/internal/pc"
@@ -19,6 +20,7 @@ import (
 var commands = map[string]func(args []string) *rep.Report{
 	"c01": c01.Run,
 	"c03": sigs.RunC03,
+	"c04": c04.Run,
 	"c05": c05.Run,
 	"c18": sigs.RunC18,
 	"c17": c17.Run,
